@@ -281,3 +281,115 @@ def fs6(P, C):
         writes = [x for x in g.walk() if ts.member_writes(g, x)]
         C.ob("FS-6", outer, "shares-core", len(calls) == 1 and not other and not writes, g.where(),
              "%s calls %s %d time(s); other table members called: %s; direct member writes: %d" % (outer, corefn, len(calls), other, len(writes)))
+
+
+def fs7(P, C):
+    C.rule("FS-7", "element counts of every pixel transfer equal the size of the array transferred: product of the axes for the coefficients, "
+           "nknots[i] for knot vector i (the same variable sizes the image), 2*ndim for the extents; the reader sizes its arrays from the image "
+           "sizes it read and insists on 2*ndim extents", floor=6)
+    wf = [g for g in P.fns("write_fits_core") if g.unit == "driver"][0]
+    rf = [g for g in P.fns("read_fits_core") if g.unit == "driver"][0]
+
+    def norm(f, i):
+        return re.sub(r"\[[A-Za-z_]\w*\]", "[#]", f.render(i).replace("this->", "").replace(" ", ""))
+
+    def defs_of(f, vid):
+        """all defining expressions of local `vid` (initialiser and assignments), rendered with locals alpha-renamed"""
+        out = []
+        for i in f.walk():
+            if f.k(i) == "DeclStmt":
+                for dd in f.nodes[i]["decls"]:
+                    if dd.get("id") == vid and dd.get("init", -1) >= 0:
+                        out.append(("init", dd["init"]))
+            ap = ts.assign_parts(f, i)
+            if ap and ap[1] is not None and f.k(f.strip(ap[0])) == "DeclRefExpr" and f.nodes[f.strip(ap[0])]["decl"].get("id") == vid:
+                out.append((f.nodes[i].get("op", "="), ap[1]))
+        return out
+
+    def var_id(f, i):
+        j = f.strip(i)
+        if f.k(j) == "UnaryOperator" and f.nodes[j]["op"] == "&":
+            j = f.strip(f.ch(j)[0])
+        return f.nodes[j]["decl"]["id"] if f.k(j) == "DeclRefExpr" and f.nodes[j]["decl"]["kind"] == "Var" else None
+
+    wcalls, _ = cfits_calls(wf)
+    imgs = []
+    for (i, nm, macro) in wcalls:
+        a = wf.args(i)
+        if nm == "ffcrim":
+            imgs.append(dict(axes=a[3], naxis=norm(wf, a[2]), pix=None, node=i))
+        elif nm == "ffppx":
+            imgs[-1]["pix"] = (a[3], norm(wf, a[4]), i)
+    if len(imgs) != 3 or any(im["pix"] is None for im in imgs):
+        raise core.AnalysisBroken("FS-7: writer images %d" % len(imgs))
+
+    def coeff_ok(im):
+        vid = var_id(wf, im["pix"][0])
+        ds = defs_of(wf, vid) if vid is not None else []
+        has_one = any(k == "init" and wf.nodes[wf.strip(e)].get("cv") == 1 for k, e in ds)
+        prod = False
+        for k, e in ds:
+            if k == "*=":
+                # multiplied by each entry of the local axis list, which is filled from the member naxes
+                b = wf.strip(e)
+                arr = None
+                if wf.k(b) == "CXXOperatorCallExpr" and wf.nodes[b].get("opcall") == "[]":
+                    arr = var_id(wf, wf.nodes[b]["ch"][1])
+                src = [x for x in wf.walk() if ts.assign_parts(wf, x) and ts.assign_parts(wf, x)[1] is not None and
+                       wf.k(wf.strip(ts.assign_parts(wf, x)[0])) == "CXXOperatorCallExpr" and var_id(wf, wf.nodes[wf.strip(ts.assign_parts(wf, x)[0])]["ch"][1]) == arr
+                       and ts.root_member(wf, ts.assign_parts(wf, x)[1]) and ts.root_member(wf, ts.assign_parts(wf, x)[1])[0] == "naxes"]
+                prod = arr is not None and bool(src) and arr == var_id_of_get(wf, im["axes"])
+        return im["naxis"] == "ndim" and has_one and prod
+
+    def var_id_of_get(f, i):
+        for x in f.walk(i):
+            if f.k(x) == "DeclRefExpr" and f.nodes[x]["decl"]["kind"] == "Var":
+                return f.nodes[x]["decl"]["id"]
+        return None
+
+    def vec_ok(im, member, count_defs):
+        vid = var_id(wf, im["pix"][0])
+        same = vid is not None and vid == var_id(wf, im["axes"])
+        ds = [norm(wf, e) for k, e in defs_of(wf, vid)] if vid is not None else []
+        return im["naxis"] == "1" and same and im["pix"][1] == member and any(d in count_defs for d in ds)
+    C.ob("FS-7", "write_fits_core", "count:coefficients", coeff_ok(imgs[0]), wf.loc(imgs[0]["node"]),
+         "the coefficient image has ndim axes taken from naxes and the number of values written is their product")
+    C.ob("FS-7", "write_fits_core", "count:knots", vec_ok(imgs[1], "knots[#]", ("nknots[#]",)), wf.loc(imgs[1]["node"]),
+         "knot image i has one axis of nknots[i] and exactly that many values are written from knots[i]")
+    C.ob("FS-7", "write_fits_core", "count:extents", vec_ok(imgs[2], "extents[0]", ("(ndim*2)", "(2*ndim)")), wf.loc(imgs[2]["node"]),
+         "the extents image has one axis of 2*ndim and exactly that many values are written from extents[0]")
+    rcalls, _ = cfits_calls(rf)
+    reads = [(i, rf.args(i)[3], norm(rf, rf.args(i)[5])) for (i, nm, m) in rcalls if nm == "ffgpxv"]
+    if len(reads) != 3:
+        raise core.AnalysisBroken("FS-7: reader pixel reads %d" % len(reads))
+    # coefficients
+    i, cnt, buf = reads[0]
+    vid = var_id(rf, cnt)
+    ds = [norm(rf, e) for k, e in defs_of(rf, vid)] if vid is not None else []
+    alloc = [norm(rf, x) for x in rf.walk() if ts.assign_parts(rf, x) and norm(rf, ts.assign_parts(rf, x)[0]) == "coefficients"]
+    C.ob("FS-7", "read_fits_core", "count:coefficients", ds == ["(strides[0]*naxes[0])"] and buf == "(&coefficients[0])" and bool(alloc) and
+         var_id_of_get(rf, rf.args(rf.strip(ts.assign_parts(rf, [x for x in rf.walk() if ts.assign_parts(rf, x) and norm(rf, ts.assign_parts(rf, x)[0]) == "coefficients"][0])[1]))[0]) == vid,
+         rf.loc(i), "the number of coefficients read equals the number allocated, strides[0]*naxes[0]: %s" % ds)
+    i, cnt, buf = reads[1]
+    sized = [norm(rf, x) for x in rf.walk() if ts.assign_parts(rf, x) and norm(rf, ts.assign_parts(rf, x)[0]) == "nknots[#]"]
+    src = None
+    for x in rf.walk():
+        ap = ts.assign_parts(rf, x)
+        if ap and ap[1] is not None and norm(rf, ap[0]) == "nknots[#]":
+            src = var_id(rf, ap[1])
+    szcall = [j for (j, nm, m) in rcalls if nm == "ffgisz" and src is not None and var_id(rf, rf.args(j)[2]) == src]
+    C.ob("FS-7", "read_fits_core", "count:knots", norm(rf, cnt) == "nknots[#]" and buf == "(&knots[#][0])" and bool(szcall), rf.loc(i),
+         "nknots[i] is the size of the image just located (fits_get_img_size) and that many knots are read into knots[i]")
+    i, cnt, buf = reads[2]
+    vid = var_id(rf, cnt)
+    guard = False
+    for x in rf.walk():
+        if rf.k(x) == "IfStmt":
+            rc = core.rel_canon(rf, rf.nodes[x]["cond"], None)
+            if rc and rc[1] == "!=0" and vid is not None:
+                nm_ = rf.var_name(vid)
+                if rc[0] == core.eq_norm(core.Poly.atom(nm_) - core.Poly({("ndim",): 2})) or rc[0] == core.eq_norm(core.Poly.atom(nm_) - core.Poly({("this->ndim",): 2})):
+                    guard = True
+    szcall = [j for (j, nm, m) in rcalls if nm == "ffgisz" and vid is not None and var_id(rf, rf.args(j)[2]) == vid]
+    C.ob("FS-7", "read_fits_core", "count:extents", guard and bool(szcall) and buf == "(&extents[0][0])", rf.loc(i),
+         "the extents are read only when the image holds exactly 2*ndim values (size from fits_get_img_size; otherwise defaults are made up)")
